@@ -18,6 +18,7 @@ chars():  a string of <= 2 characters drawn from a pool of every boundary
           exactly the complement of the XML Char production.
 Symbolic: outcome kinds of 3 tests incl. failing subtests, unexpected success,
 body+tearDown error; --repeat; import error; the characters."""
+import sys
 import types
 import unittest
 from xml.etree import ElementTree as RealET
@@ -89,6 +90,39 @@ class FakeDT:
         return types.SimpleNamespace(isoformat=lambda: '2026-01-01T00:00:00')
 
 
+def _real(v):
+    """CrossHair quirk: '%'-formatting and slicing may hand over lazily-symbolic strings (always concrete here), which
+    the C serialiser of ElementTree rejects ("write() argument must be str, not LazyIntSymbolicStr").  Realise; a no-op natively."""
+    try:
+        from crosshair.core import realize
+        from crosshair.tracers import is_tracing
+        if is_tracing():
+            return realize(v)
+    except ImportError:
+        pass
+    return v
+
+
+class RElement(RealET.Element):
+    """xml.etree.ElementTree.Element whose attribute values and text are realised strings (see _real)."""
+
+    def set(self, key, value):
+        RealET.Element.set(self, _real(key), _real(value))
+
+    def __setattr__(self, name, value):
+        if name in ('text', 'tail') and value is not None:
+            value = _real(value)
+        RealET.Element.__setattr__(self, name, value)
+
+
+class RealizingET:
+    """formatter.ElementTree: the real module with Element -> RElement."""
+    Element = RElement
+    indent = staticmethod(RealET.indent)
+    tostring = staticmethod(RealET.tostring)
+
+
+FM.ElementTree = RealizingET
 FM.open = fake_open
 FM.datetime = FakeDT
 FM.socket = types.SimpleNamespace(gethostname=lambda: 'host')
@@ -126,6 +160,9 @@ def _write(o):
     try:
         o.output.writeXMLReports()
     except Exception as e:
+        import os, traceback
+        if os.environ.get('VERIF_DEBUG'):
+            traceback.print_exc(file=sys.__stderr__)
         return 'writing the reports raised %s: no (complete) report files' % type(e).__name__
     return None
 
